@@ -189,22 +189,52 @@ func (r *Recorder) WaitQuiescent(maxWait time.Duration) bool {
 	return r.WaitQuiescentN(maxWait, 3, 300*time.Microsecond)
 }
 
+// allGoroutineStatus returns "id:status;" for every goroutine of the process except the caller,
+// and whether all of them are blocked.  Using every goroutine (library, mocks, pumps, pending API
+// calls of the harness) avoids declaring quiescence while a harness goroutine is still on its way
+// into the library.
+func allGoroutineStatus() (string, bool) {
+	buf := make([]byte, 1<<20)
+	for {
+		n := runtime.Stack(buf, true)
+		if n < len(buf) {
+			buf = buf[:n]
+			break
+		}
+		buf = make([]byte, 2*len(buf))
+	}
+	all := true
+	var sb strings.Builder
+	for bi, b := range bytes.Split(buf, []byte("\n\n")) {
+		if bi == 0 {
+			continue
+		}
+		line := b
+		if i := bytes.IndexByte(b, '\n'); i >= 0 {
+			line = b[:i]
+		}
+		m := hdrRe.FindSubmatch(line)
+		if m == nil {
+			continue
+		}
+		if !blockedStatus[string(m[2])] {
+			all = false
+		}
+		sb.Write(m[1])
+		sb.WriteByte(':')
+		sb.Write(m[2])
+		sb.WriteByte(';')
+	}
+	return sb.String(), all
+}
+
 func (r *Recorder) WaitQuiescentN(maxWait time.Duration, stable int, gap time.Duration) bool {
 	deadline := time.Now().Add(maxWait)
 	prevSig := ""
 	prevCount := int64(-1)
 	good := 0
 	for {
-		gs := LibraryGoroutines()
-		all := true
-		var sb strings.Builder
-		for _, g := range gs {
-			if !g.Blocked {
-				all = false
-			}
-			fmt.Fprintf(&sb, "%d:%s;", g.ID, g.Status)
-		}
-		sig := sb.String()
+		sig, all := allGoroutineStatus()
 		cnt := r.Count()
 		if all && sig == prevSig && cnt == prevCount {
 			good++
